@@ -333,7 +333,7 @@ def evaluate(ctx, cases, tagsl):
 
 def shrink(c):
     """reduce an array case to a single scalar pair when that still shows a disagreement"""
-    if "history" in c or c.get("kind") == "cli-tol":
+    if "history" in c or c.get("kind") in ("cli-tol", "long"):
         return c
     a, b = c["a"], c["b"]
     if a["shape"] != b["shape"] or len(a["v"]) <= 1:
@@ -449,10 +449,86 @@ def replay_cli(ctx, c):
     return not ct.agrees(out, want)
 
 
+# ---------------------------------------------------------------- long arrays (deviation hidden far from the start)
+LONG_QUICK = [4097, 65537, 100001, 131073]
+LONG_THOROUGH = LONG_QUICK + [16385, 32769, 262145, 524289, 1000003, 1048577]
+
+
+def _long_arrays(c):
+    """literal description -> (A, B) case dicts; a = the pattern repeated, b = a with ONE entry replaced"""
+    n, k, pat = c["n"], c["k"], c["pattern"]
+    size = n * k
+    a = (pat * (size // len(pat) + 1))[:size]
+    b = list(a)
+    b[c["dev_index"]] = c["dev_value"]
+    shape = [n] if k == 1 else [n, k]
+    return {"dt": "f64", "shape": shape, "v": a}, {"dt": "f64", "shape": shape, "v": b}
+
+
+def long_arrays(ctx, sizes):
+    """n far beyond anything a test visits: one deviating entry at the last row, at the first row after the largest
+    power of two below n, at a middle row — once 1 ulp inside and once 1 ulp outside the threshold.  The expected
+    verdict is the formula at the deviating entry (all other entries are identical, |x-x| = 0 <= any threshold)."""
+    rng = ctx.rng
+    todo = []
+    for n in sizes:
+        for k in ([1, 3] if n <= 140000 else [1]):
+            pat = [rand_float(rng, [0]) for _ in range(7)]
+            p2 = 1 << ((n - 1).bit_length() - 1)
+            for row in (n - 1, p2, n // 2):
+                col = rng.randrange(k)
+                idx = row * k + col
+                a_i = (pat * 2)[idx % len(pat)]
+                rel, abs_ = rng.choice([1e-6, 2.0 ** -20, 1e-9]), rng.choice([0.0, 1e-12])
+                thr_b = near_boundary_partner(rng, a_i, rel, abs_)
+                for dev in (thr_b, a_i * (1 + 8 * rel) + 1e-9):
+                    todo.append({"kind": "long", "n": n, "k": k, "pattern": pat, "dev_index": idx, "dev_row": row,
+                                 "dev_value": dev, "rel": ["num", rel], "abs": ["num", abs_]})
+    # the Lean model is evaluated on the shortest size only (the driver needs ~0.3 ms per entry); for the longer ones the
+    # expectation is the documented formula at the single deviating entry, computed in Python (exact rationals)
+    lines, lidx = [], []
+    for j, c in enumerate(todo):
+        if c["n"] <= 4097 and c["k"] == 1 and c["dev_row"] != c["n"] // 2:
+            A, B = _long_arrays(c)
+            lines.append(predio.enc_pred("fuzzy", c["rel"], c["abs"], A, B)); lidx.append(j)
+    reps = [None] * len(todo)
+    if ctx.driver_ok and lines:
+        for j, r in zip(lidx, ctx.lean(lines)):
+            reps[j] = r
+    for c, rep in zip(todo, reps):
+        A, B = _long_arrays(c)
+        impl = predio.run_impl("fuzzy", c["rel"], c["abs"], A, B)
+        i = c["dev_index"]
+        orc = "T" if predio.float_formula(A["v"][i], B["v"][i], c["rel"][1], c["abs"][1]) else "F"
+        where = "last" if c["dev_row"] == c["n"] - 1 else ("mid" if c["dev_row"] == c["n"] // 2 else "after-pow2")
+        ctx.case(("long", c["n"], c["k"], i, c["dev_value"], c["rel"][1], c["abs"][1]), nontrivial=True,
+                 tags=["long-array", f"long-n={c['n']}", "long-dev-" + where, "verdict-" + impl], sample=None)
+        if rep is not None and rep.get("hyp") == "1":
+            if rep["model"] != impl:
+                ctx.mismatch(c, impl, rep["model"], what="long array: impl vs model")
+            if rep["spec"] != rep["model"] or rep["spec"] != orc:
+                ctx.inconsistent(c, rep.get("model"), f"spec={rep.get('spec')} oracle={orc}")
+        if impl != orc:
+            ctx.violation(c, impl, orc, cls=None,
+                          what=f"FuzzyEquality verdict differs from the documented formula: arrays of {c['n']} rows, "
+                               f"single deviating entry in row {c['dev_row']}")
+
+
+def replay_long(ctx, c):
+    A, B = _long_arrays(c)
+    impl = predio.run_impl("fuzzy", c["rel"], c["abs"], A, B)
+    i = c["dev_index"]
+    orc = "T" if predio.float_formula(A["v"][i], B["v"][i], c["rel"][1], c["abs"][1]) else "F"
+    print(f"replay long array n={c['n']} k={c['k']} deviating row {c['dev_row']}: impl={impl} formula={orc}")
+    return impl != orc
+
+
 def run(ctx):
     ctx.rule = ("cases = (tolerances, a, b) for FuzzyEquality on float64 arrays; scalar pairs with b placed on the "
                 "threshold +-0..2 ulp over magnitudes subnormal..1e300, arrays of shapes (n,),(n,k),(n,k,k),(n,1) with one "
-                "deviating entry at first/interior/last/last-component position, scalar / per-component / scaled / default "
+                "deviating entry at first/interior/last/last-component position (n up to 1000; plus long arrays of 4097..131073 "
+                "rows [thorough: ..1048577] with the deviation in the last row / right after the largest power of two / in the "
+                "middle, 1 ulp inside and clearly outside the threshold), scalar / per-component / scaled / default "
                 "tolerances, (n,)~(n,1) mixes and genuine shape mismatches; plus float32/float16 arrays of shapes (n,),(n,k),(n,1) "
                 "with Python-float (weak) and array/scaled (strong) tolerances; plus the command-line route: CSV / .vtu files with "
                 "float64 fields under every pair of -rtol / -atol argument layouts (general / per-field values, either order, "
@@ -480,6 +556,7 @@ def run(ctx):
     CH = 5000
     for i in range(0, len(cases), CH):
         evaluate(ctx, cases[i:i + CH], tagsl[i:i + CH])
+    long_arrays(ctx, LONG_QUICK if ctx.tier == 'quick' else LONG_THOROUGH)
     reused_dynamic_tolerances(ctx, ctx.scale(150, 6000))
     cli_route(ctx, n_vtu_pairs=ctx.scale(40, 169), rounds=ctx.scale(1, 10))
     ctx.spec_viol = [dict(v, case=shrink(v["case"])) for v in ctx.spec_viol[:50]]
@@ -496,6 +573,11 @@ def replay(ctx, payload):
     c = payload["case"]
     if c.get("kind") == "cli-tol":
         if replay_cli(ctx, c):
+            print(f"VIOLATION property=C01 replay={payload.get('_path', '<replay>')}")
+            return 1
+        return 0
+    if c.get("kind") == "long":
+        if replay_long(ctx, c):
             print(f"VIOLATION property=C01 replay={payload.get('_path', '<replay>')}")
             return 1
         return 0
